@@ -380,7 +380,7 @@ func printManifest() {
 			Replay:     "./bin/gsa -replay {path}",
 			Engine:     "gsa",
 			Level:      level{"other", levelTextOf(p), "DESIGN.md §6 " + p.ID},
-			Note:       p.LevelNote,
+			Note:       p.LevelNote + " The rules are intra-procedural: a refactoring that moves the anchored construct into a new helper function is, in most cases, reported as a changed anchor (violation or UNDECIDED) although behaviour is unchanged, and the rule must then be re-anchored (measured in DESIGN.md sections 3 and 8.2).",
 			Technique:  p.Technique,
 		})
 	}
